@@ -29,7 +29,8 @@
           `NoDupValues`; discharged for every table regenerated from the live
           classes by `gen_enums_ok` (`decide +kernel`); `UnsignedN` limits:
           `unsignedCtor_roundtrip` + `gen_unsigned_limits_ok`; named bit strings:
-          `gen_bits_ok`, `bitsFromNames_sets`.
+          `gen_bits_ok`, `bitsFromNames_sets`.  The `gen_*` obligations live in
+          `BacVerif/Lemmas/C01Gen.lean` (same namespace).
 
   * Real as a Python float (a double): `Model.Ieee` transcribes the C casts behind
     `struct.pack/unpack('>f')` on bit patterns → `narrow_widen` (a float holding a
@@ -45,7 +46,6 @@
 import BacVerif.Model.Prim
 import BacVerif.Model.Ieee
 import BacVerif.Props.C02
-import BacVerif.Gen.Enums
 import BacVerif.Lemmas.C01Distinct
 namespace BacVerif.C01
 open BacVerif
@@ -1069,7 +1069,9 @@ example :
     (∃ t, enumEncode T (.name [115]) = .ok t ∧ enumDecode T t = .ok (.name [101])) := by
   exact ⟨rfl, _, rfl, rfl⟩
 
-/-! ## the tables regenerated from the live classes -/
+/-! ## checks run on the tables regenerated from the live classes
+    (the obligations themselves are in `Lemmas/C01Gen.lean`, the only C01 proof file that imports
+    `Gen/Enums.lean`, so that a changed table does not re-elaborate this file) -/
 
 open BacVerif.Distinct in
 /-- the executable check run on every generated enumeration table -/
@@ -1081,43 +1083,6 @@ theorem enumOK_sound (T : EnumTable) (h : enumOK T = true) :
     NoDupNames T ∧ NoDupValues T ∧ ∀ p ∈ T, p.2 < 4294967296 := by
   simp only [enumOK, Bool.and_eq_true, List.all_eq_true, decide_eq_true_eq] at h
   exact ⟨Distinct.distinctNames_nodup _ h.1.1, Distinct.distinctNats_nodup _ h.1.2, h.2⟩
-
-/-- kernel evaluation of the check over every table of `Gen/Enums.lean` -/
-theorem gen_enums_checked : Gen.Enums.enumTables.all (fun p => enumOK p.2) = true := by
-  decide +kernel
-
-/-- **gen_enums_ok** — every Enumerated subclass of the tree under test has
-    pairwise different names, pairwise different values, all below 2^32. -/
-theorem gen_enums_ok : ∀ p ∈ Gen.Enums.enumTables,
-    NoDupNames p.2 ∧ NoDupValues p.2 ∧ ∀ q ∈ p.2, q.2 < 4294967296 := by
-  intro p hp
-  have := List.all_eq_true.mp gen_enums_checked p hp
-  exact enumOK_sound p.2 this
-
-/-- **gen_enum_roundtrip** — hence for every Enumerated subclass of the tree:
-    every name round-trips to itself and every 32-bit number to itself. -/
-theorem gen_enum_roundtrip : ∀ p ∈ Gen.Enums.enumTables, ∀ (a : EnumArg) (v : EnumVal),
-    enumCtor p.2 a = .ok v → (∀ i, a = .int i → i < 4294967296) →
-    ∃ t, enumEncode p.2 v = .ok t ∧ enumDecode p.2 t = .ok v := by
-  intro p hp a v hc hb
-  obtain ⟨hn, hv, hlt⟩ := gen_enums_ok p hp
-  cases a with
-  | int i =>
-    obtain ⟨hi, hnum⟩ := enum_number_preserved p.2 hn i v hc
-    exact enum_roundtrip p.2 hn hv _ v hc _ hnum (by have := hb i rfl; omega)
-  | name s =>
-    obtain ⟨_, n, hx, hnum⟩ := enum_name_number p.2 s v hc
-    exact enum_roundtrip p.2 hn hv _ v hc n hnum (hlt _ (xlateName_mem p.2 s n hx))
-
-/-- `_app_tag` of the thirteen live classes = the model's tag numbers -/
-theorem gen_app_tags_ok : PrimTy.all.map PrimTy.appTag = Gen.Enums.genAppTags := by decide
-
-/-- `ObjectIdentifier.maximum_instance_number` = the model's 22-bit limit -/
-theorem gen_oid_max_ok : Gen.Enums.oidMaxInstance = 4194303 := by decide
-
-/-- every named object type fits the 10-bit type field -/
-theorem gen_object_types_ok :
-    Gen.Enums.objectTypeTable.all (fun p => decide (p.2 < 1024)) = true := by decide +kernel
 
 /-! ## Unsigned and its range-limited subclasses -/
 
@@ -1156,12 +1121,6 @@ theorem unsignedCtor_refuses (lo : Int) (hi : Option Int) (arg : Int)
   · by_cases hl : arg < lo
     · exact ⟨.valueRange, by simp [hl]⟩
     · exact ⟨.valueRange, by simp [hl, h]⟩
-
-/-- the limits of the live Unsigned classes: low limit ≥ 0, high limit (if any) < 2^32 -/
-theorem gen_unsigned_limits_ok :
-    Gen.Enums.unsignedLimits.all (fun p =>
-      decide (0 ≤ p.2.1) && (match p.2.2 with | none => true | some h => decide (h < 4294967296))) = true := by
-  decide +kernel
 
 /-! ## named bit strings -/
 
@@ -1245,18 +1204,6 @@ open BacVerif.Distinct in
 /-- the executable check run on every generated bit-name table -/
 def bitsOK (len : Nat) (T : BitTable) : Bool :=
   distinctNames (T.map (·.1)) && distinctNats (T.map (·.2)) && T.all (fun p => decide (p.2 < len))
-
-theorem gen_bits_checked : Gen.Enums.bitTables.all (fun p => bitsOK p.2.1 p.2.2) = true := by
-  decide +kernel
-
-/-- **gen_bits_ok** — every BitString subclass of the tree under test: names
-    pairwise different, positions pairwise different and below `bitLen`. -/
-theorem gen_bits_ok : ∀ p ∈ Gen.Enums.bitTables,
-    (p.2.2.map (·.1)).Nodup ∧ (p.2.2.map (·.2)).Nodup ∧ ∀ q ∈ p.2.2, q.2 < p.2.1 := by
-  intro p hp
-  have h := List.all_eq_true.mp gen_bits_checked p hp
-  simp only [bitsOK, Bool.and_eq_true, List.all_eq_true, decide_eq_true_eq] at h
-  exact ⟨Distinct.distinctNames_nodup _ h.1.1, Distinct.distinctNats_nodup _ h.1.2, h.2⟩
 
 /-! ## further consequences -/
 
@@ -1720,24 +1667,10 @@ example : wireDecode .bool (.ctx 254) [0xF9, 0xFE, 0x01, 0x77] = .ok (.bool true
 example : wireEncode .app (.bool true) = .ok [0x11] := rfl
 example : wireEncode (.ctx 3) (.integer (-1)) = .ok [0x39, 0xFF] := rfl
 
--- the enumeration hypotheses are met by a live table with more than one entry
-example : ∃ p ∈ Gen.Enums.enumTables, p.1 = "basetypes.SecurityLevel" ∧ p.2.length = 6 ∧
-    NoDupNames p.2 ∧ NoDupValues p.2 := by
-  refine ⟨("basetypes.SecurityLevel", Gen.Enums.enum_basetypes_SecurityLevel), ?_, rfl, rfl, ?_⟩
-  · simp [Gen.Enums.enumTables]
-  · have h := gen_enums_ok ("basetypes.SecurityLevel", Gen.Enums.enum_basetypes_SecurityLevel)
-      (by simp [Gen.Enums.enumTables])
-    exact ⟨h.1, h.2.1⟩
-
 -- `unsignedCtor_roundtrip` hypotheses: Unsigned16
 example : unsignedCtor 0 (some 65535) 65535 = .ok 65535 ∧
     unsignedCtor 0 (some 65535) 65536 = .error .valueRange ∧
     unsignedCtor 0 (some 65535) (-1) = .error .valueRange := ⟨rfl, rfl, rfl⟩
-
--- `bitsFromNames_sets` hypothesis: StatusFlags ['fault', 'outOfService'] = [0,1,0,1]
-example : bitsFromNames Gen.Enums.bits_basetypes_StatusFlags 4
-    [[102, 97, 117, 108, 116], [111, 117, 116, 79, 102, 83, 101, 114, 118, 105, 99, 101]]
-    = .ok [false, true, false, true] := rfl
 
 -- `app_to_object` recovers type and value from the tag alone; reserved numbers give None
 example : appToObject (appData 3 [0xFF, 0x7F]) = .ok (some (.integer (-129))) := rfl
